@@ -2,6 +2,7 @@ import Aiorpcx.Common.Hex
 import Aiorpcx.Common.JWire
 import Aiorpcx.C04.Model
 import Aiorpcx.C04.Loads
+import Aiorpcx.C04.Conn
 import Aiorpcx.Facts.C04
 /-! Line-protocol driver for the C04 model (values in the `JWire` token encoding).
 
@@ -15,6 +16,10 @@ import Aiorpcx.Facts.C04
     batch <P> <k> (R <s> <J> <J> | N <s> <J>)*   -> ok <J array of payloads> | item line (error)
     detect <J payload>               -> v1|v2|loose
     dumps <J>                        -> D<the model's json.dumps text>   (floats print as `F`)
+    conn <P> <k> (x:<outcome> | <J payload>)*   -> <class>* | <protocol afterwards>
+                                        a history of k received messages through one connection created
+                                        with class P; class = R | N | V (a response, also a refused one)
+                                        | B | PE<code> (error with a reply) | PY<Exception>
     loads <hex bytes>                -> L<J> | Lfail      the reader of Loads.lean (`loadsOf`) on the
                                         bytes a real encoder emitted (float-free messages only)
 
@@ -99,6 +104,29 @@ def parseMembers : Nat → List String → Option (List Member)
       pure (.notification m a :: ms)
   | _, _ => none
 
+def connClass : R (Item × J) → String
+  | .ok (.request _ _, _) => "R"
+  | .ok (.notification _ _, _) => "N"
+  | .ok (.response _, _) => "V"
+  | .ok (.batch _, _) => "B"
+  | .error (.proto e) => if e.errorMessage.isSome then s!"PE{e.code}" else "V"
+  | .error (.py e) => "PY" ++ e.name
+
+/-- parse `k` messages of a history -/
+def parseHistory : Nat → List String → Option (List LoadsOutcome)
+  | 0, [] => some []
+  | 0, _ :: _ => none
+  | _ + 1, [] => none
+  | k + 1, tok :: rest =>
+      if tok.startsWith "x:" then
+        match parseOutcome (tok.drop 2).toString, parseHistory k rest with
+        | some o, some os => some (o :: os)
+        | _, _ => none
+      else
+        match parsePrefix (tok :: rest) with
+        | some (v, r) => (parseHistory k r).map (LoadsOutcome.value v :: ·)
+        | none => none
+
 def handle (line : String) : String :=
   let g := Aiorpcx.Facts.C04.payloadGuards
   match tokens line with
@@ -152,6 +180,14 @@ def handle (line : String) : String :=
       match parseToks rest with
       | some v => showProto (detectProtocol v)
       | none => "bad-op"
+  | "conn" :: p :: k :: rest =>
+      match parseProto p, k.toNat? with
+      | some P, some k =>
+          match parseHistory k rest with
+          | some os =>
+              " ".intercalate ((connRun g P os).map connClass) ++ " | " ++ showProto (connProto g P os)
+          | none => "bad-op"
+      | _, _ => "bad-op"
   | ["loads", hex] =>
       match Hex.parseBytes hex with
       | some bs =>
